@@ -834,7 +834,8 @@ func mutationSequences(nseq int, base string) {
 					continue
 				}
 				name := newName()
-				target := []string{"f1", "nonexistent", "d1", "f1"}[rng.Intn(4)]
+				// targets whose NAMES contain dots are ordinary names (only a ".." component leaves a directory)
+				target := []string{"f1", "nonexistent", "d1", "f1", "rel..1/notes", "..2024.cfg", "draft...txt", "d1/..x", "a..", "..."}[rng.Intn(10)]
 				mode := uint8([]int{0, 16, 2}[rng.Intn(3)])
 				nfid, e9 := t.clnt.FWalk("")
 				if e9 == nil {
@@ -913,6 +914,11 @@ func mutationSequences(nseq int, base string) {
 				}
 				nfid, e9 := t.clnt.FWalk(p)
 				if e9 == nil {
+					// sometimes through a fid that is open (for reading, for writing): truncate(2) and chmod(2) go by
+					// the path, what the fid is open for does not matter
+					if rng.Intn(2) == 0 {
+						_ = t.clnt.Open(nfid, uint8([]int{go9p.OREAD, go9p.OREAD, go9p.ORDWR}[rng.Intn(3)]))
+					}
 					e9 = t.clnt.Wstat(nfid, &d)
 					_ = t.clnt.Clunk(nfid)
 				}
